@@ -268,7 +268,11 @@ func (c18) Gen(tier string, seed int64, emit func([]Ev)) {
 		if r.Intn(2) == 0 {
 			kind = c18FailKinds[r.Intn(len(c18FailKinds))]
 		}
-		emit([]Ev{{"op": "readfrom", "adapter": ad, "script": script, "fail_at": failAt, "via": via, "zero_reads": zero, "fail_kind": kind, "wfail_kind": c18WFailKinds[r.Intn(2)*r.Intn(len(c18WFailKinds))], "wfail_n": []int{0, 0, 57, 188}[r.Intn(4)]}})
+		usedBefore := 0
+		if failAt != 1 && r.Intn(4) == 0 {
+			usedBefore = 1 + r.Intn(187)
+		}
+		emit([]Ev{{"op": "readfrom", "adapter": ad, "script": script, "fail_at": failAt, "via": via, "zero_reads": zero, "fail_kind": kind, "wfail_kind": c18WFailKinds[r.Intn(2)*r.Intn(len(c18WFailKinds))], "wfail_n": []int{0, 0, 57, 188}[r.Intn(4)], "used_before": usedBefore}})
 	}
 	// long streams (hundreds of packets, more than any internal buffer of 64 KiB) handed over in large and uneven pieces
 	nlong := 6
@@ -355,6 +359,17 @@ func (c18) Exec(h []Ev) []Ev {
 				e["n"], e["err"] = n, c18Err(err, nil, w.failWith)
 				e["data_same"] = bytes.Equal(data, keep)
 			case "readfrom":
+				if k := GI0(e["used_before"]); k > 0 {
+					// the adapter was used before: an earlier ReadFrom on it ended with the reader failing k bytes into a packet
+					// (and an earlier Write of one packet); every call starts afresh
+					pre := &scriptReader{failWith: errR}
+					pre.steps = append(pre.steps, struct {
+						data []byte
+						err  string
+					}{bytes.Repeat([]byte{0x33}, 188+k), "fail"})
+					rf.ReadFrom(pre)
+					w.calls = nil
+				}
 				sr := &scriptReader{}
 				var list []interface{}
 				switch t := e["script"].(type) {
